@@ -274,9 +274,13 @@ func arithFingerprint(prog *Program, pk *packages.Package, node ast.Node, contVa
 		case *ast.AssignStmt:
 			if len(x.Lhs) == 1 && len(x.Rhs) == 1 {
 				// an integer frame pushed on the traversal stack: S = append(S, di|flag)
-				if c, ok := x.Rhs[0].(*ast.CallExpr); ok && len(c.Args) == 2 && !c.Ellipsis.IsValid() {
-					if fid, ok := c.Fun.(*ast.Ident); ok && fid.Name == "append" && types.ExprString(c.Args[0]) == types.ExprString(x.Lhs[0]) && intOnly(c.Args[1]) {
-						add("push ", c.Args[1])
+				if c, ok := x.Rhs[0].(*ast.CallExpr); ok && len(c.Args) >= 2 && !c.Ellipsis.IsValid() {
+					if fid, ok := c.Fun.(*ast.Ident); ok && fid.Name == "append" && types.ExprString(c.Args[0]) == types.ExprString(x.Lhs[0]) {
+						for _, a := range c.Args[1:] {
+							if intOnly(a) {
+								add("push ", a) // also the frame in append(stack, prev, di|descentFlag)
+							}
+						}
 					}
 				}
 				if id, ok := x.Lhs[0].(*ast.Ident); ok {
